@@ -12,7 +12,7 @@ ASSUMPTIONS = [
     'section name string table present and designated by e_shstrndx (or, with SHN_XINDEX, by section 0 sh_link)',
 ]
 STUBS = ['SymStream (io.BytesIO)', 'SxPacker (struct.Struct)']
-OUTSIDE = ['materialised tables with >= 0xff00 entries (the escape is checked on the counts)', 'images larger than ~1 KiB',
+OUTSIDE = ['materialised tables with >= 0xff00 entries (the escape is checked on the counts)', 'images larger than ~2 KiB',
            'non-ASCII section names', 'names no vendored registry defines (C17 lists them)']
 
 MACH = {'generic': 3, 'ARM': 40, 'AARCH64': 183, 'X86_64': 62, 'MIPS': 8, 'RISCV': 243}
@@ -386,6 +386,26 @@ def h_lookup(ctx):
                 ctx.check_eq('lookup/same-section', sec['sh_offset'], elf.get_section(idx)['sh_offset'])
 
 
+def h_long_names(ctx):
+    """section names of 63, 64, 65, 128 and 200 characters (the name reader works in chunks): names and lookups by name (ground)"""
+    cfg = ctx.cfg
+    EF = ctx.lib('elf.elffile')
+    img = Image(cfg['elfclass'], cfg['little'])
+    img.section('', sh_type=0)
+    names = ['.text._ZN' + 'x' * (n - 9) for n in cfg['lengths']]
+    for i, nm in enumerate(names):
+        img.section(nm, sh_type=1, sh_offset=0x40 + i)
+    img.add_shstrtab()
+    elf = EF.ELFFile(ctx.stream(img.build()))
+    ctx.outcome('ok')
+    ctx.check_eq('long-names/names', [s.name for s in ctx.drain(elf.iter_sections())], [''] + names + ['.shstrtab'])
+    for i, nm in enumerate(names):
+        ctx.check_eq('long-names/index', elf.get_section_index(nm), i + 1)
+        sec = elf.get_section_by_name(nm)
+        ctx.check('long-names/by-name', sec is not None and sec['sh_offset'] == 0x40 + i)
+        ctx.check('long-names/has_section', elf.has_section(nm) and not elf.has_section(nm + 'y'))
+
+
 # ------------------------------------------------------------------ instances
 ENVS = [(32, True), (32, False), (64, True), (64, False)]
 
@@ -436,6 +456,8 @@ HARNESSES = [
       desc='Elf_Shdr / Elf_Phdr parse of fully symbolic entries per machine: layout, consumption, sh_type/p_type names belong to the registry and, '
            'for processor-specific codes, to that machine namespace; all other codes raw',
       bounds={'all': 'all 2^32 type codes per table'}),
+    H('h1_5_long_names', h_long_names, lambda tier: [dict(elfclass=c, little=l, lengths=ln) for c, l in ENVS[1:3] for ln in ([64], [63, 64, 65], [128, 200, 64], [192])], expect=('ok',), decoy=-1,
+      desc='section names whose length is around and at multiples of 64 characters: enumeration and lookups by name (ground)'),
     H('h1_3_tables', h_tables, _tables_instances, expect=('ok',),
       desc='real constructor on generated images: section/program header tables at varied offsets with entry-size slack, 0-3 entries with all field values symbolic; '
            'counts, order, every field, names; extended numbering (e_shnum=0 -> sh_size of section 0, e_phnum=0xffff -> sh_info, e_shstrndx=0xffff -> sh_link) with symbolic counts'),
